@@ -360,6 +360,292 @@ end shutdown
 section waiting
 open Frappy.Spec.C15
 
+/-- statements none of which lets an exception out: all of them run -/
+theorem blocks_all_ok : ∀ (l : List Block), (∀ b ∈ l, b.2 = none) → blocks l = (l.flatMap (·.1), none) := by
+  intro l
+  induction l with
+  | nil => intro _; rfl
+  | cons b rest ih =>
+    intro h
+    obtain ⟨evs, exc⟩ := b
+    have hb : exc = none := h (evs, exc) (by simp)
+    subst hb
+    have := ih (fun b hb => h b (List.mem_cons_of_mem _ hb))
+    simp [blocks, this]
+
+/-- the loop body of `writeInitParams` attempts the write and lets nothing out, whatever `write_<p>` raises -/
+theorem writeOne_eq (c : ModCfg) (p : String) : writeOne c p = ([Ev.write c.name p], none) := by
+  unfold writeOne
+  split
+  · rfl
+  · split <;> rfl
+
+theorem writeInitParams_eq (c : ModCfg) : writeInitParams c = (c.writes.map (Ev.write c.name), none) := by
+  unfold writeInitParams
+  rw [blocks_all_ok]
+  · simp only [List.flatMap_map, writeOne_eq]
+    induction c.writes with
+    | nil => rfl
+    | cons p ps ih =>
+      have ih' := (Prod.mk.injEq _ _ _ _ ▸ ih).1
+      simp [List.flatMap_cons, ih']
+  · intro b hb
+    obtain ⟨p, _, rfl⟩ := List.mem_map.mp hb
+    rw [writeOne_eq]
+
+/-- the events a poll thread logs before and during its first polls -/
+def isProl : Ev → Bool
+  | .write _ _ => true
+  | .firstpoll _ => true
+  | .rounddone _ => true
+  | .initread _ => true
+  | .comfail _ => true
+  | _ => false
+
+theorem writeInitParams_pro (c : ModCfg) : ∀ e ∈ (writeInitParams c).1, isProl e = true := by
+  intro e he
+  rw [writeInitParams_eq] at he
+  obtain ⟨p, _, rfl⟩ := List.mem_map.mp he
+  rfl
+
+theorem initialReadsOne_pro (c : ModCfg) : ∀ e ∈ (initialReadsOne c).1, isProl e = true := by
+  intro e he
+  unfold initialReadsOne at he
+  split at he
+  · simp only [List.mem_singleton] at he; subst he; rfl
+  · split at he
+    · simp only [List.mem_cons, List.not_mem_nil, or_false] at he
+      rcases he with rfl | rfl <;> rfl
+    · simp only [List.mem_singleton] at he; subst he; rfl
+
+theorem firstPollOne_pro (c : ModCfg) (b : Bool) : ∀ e ∈ (firstPollOne c b).1, isProl e = true := by
+  intro e he
+  unfold firstPollOne at he
+  split at he
+  · simp only [List.mem_singleton] at he; subst he; rfl
+  · split at he
+    · simp only [List.mem_cons, List.not_mem_nil, or_false] at he
+      rcases he with rfl | rfl <;> rfl
+    · simp only [List.mem_singleton] at he; subst he; rfl
+
+theorem initLoop_pro (st : St) : ∀ (ms : List Name), ∀ e ∈ (initLoop st ms).evs, isProl e = true := by
+  intro ms
+  induction ms with
+  | nil => intro e he; simp [initLoop] at he
+  | cons m ms ih =>
+    intro e he
+    unfold initLoop at he
+    cases hr : initialReadsOne (objOf st m) with
+    | mk evs exc =>
+      have hp := initialReadsOne_pro (objOf st m)
+      rw [hr] at hp
+      simp only [hr] at he
+      cases exc with
+      | some x =>
+        simp only [List.mem_append] at he
+        rcases he with he | he
+        · exact writeInitParams_pro _ e he
+        · exact hp e he
+      | none =>
+        simp only [List.mem_append] at he
+        rcases he with (he | he) | he
+        · exact writeInitParams_pro _ e he
+        · exact hp e he
+        · exact ih e he
+
+theorem pollLoop_pro (st : St) : ∀ (ms : List Name), ∀ e ∈ (pollLoop st ms).evs, isProl e = true := by
+  intro ms
+  induction ms with
+  | nil => intro e he; simp [pollLoop] at he
+  | cons m ms ih =>
+    intro e he
+    unfold pollLoop at he
+    cases hr : firstPollOne (objOf st m) true with
+    | mk evs exc =>
+      have hp := firstPollOne_pro (objOf st m) true
+      rw [hr] at hp
+      simp only [hr] at he
+      cases exc with
+      | some x => exact hp e he
+      | none =>
+        simp only [List.mem_append] at he
+        rcases he with he | he
+        · exact hp e he
+        · exact ih e he
+
+theorem latePolls_pro (st : St) (ms : List Name) : ∀ e ∈ latePolls st ms, isProl e = true := by
+  intro e he
+  obtain ⟨m, _, hm⟩ := List.mem_flatMap.mp he
+  exact firstPollOne_pro _ _ e hm
+
+/-- events of the write / initial-read loop of the start-up sequence -/
+def isInitLoopEv : Ev → Bool
+  | .write _ _ => true
+  | .initread _ => true
+  | .comfail _ => true
+  | _ => false
+
+/-- events of the first polls -/
+def isPollLoopEv : Ev → Bool
+  | .firstpoll _ => true
+  | .comfail _ => true
+  | _ => false
+
+theorem writeInitParams_il (c : ModCfg) : ∀ e ∈ (writeInitParams c).1, isInitLoopEv e = true := by
+  intro e he
+  rw [writeInitParams_eq] at he
+  obtain ⟨p, _, rfl⟩ := List.mem_map.mp he
+  rfl
+
+theorem initialReadsOne_il (c : ModCfg) : ∀ e ∈ (initialReadsOne c).1, isInitLoopEv e = true := by
+  intro e he
+  unfold initialReadsOne at he
+  split at he
+  · simp only [List.mem_singleton] at he; subst he; rfl
+  · split at he
+    · simp only [List.mem_cons, List.not_mem_nil, or_false] at he
+      rcases he with rfl | rfl <;> rfl
+    · simp only [List.mem_singleton] at he; subst he; rfl
+
+theorem initLoop_il (st : St) : ∀ (ms : List Name), ∀ e ∈ (initLoop st ms).evs, isInitLoopEv e = true := by
+  intro ms
+  induction ms with
+  | nil => intro e he; simp [initLoop] at he
+  | cons m ms ih =>
+    intro e he
+    unfold initLoop at he
+    cases hr : initialReadsOne (objOf st m) with
+    | mk evs exc =>
+      have hp := initialReadsOne_il (objOf st m)
+      rw [hr] at hp
+      simp only [hr] at he
+      cases exc with
+      | some x =>
+        simp only [List.mem_append] at he
+        rcases he with he | he
+        · exact writeInitParams_il _ e he
+        · exact hp e he
+      | none =>
+        simp only [List.mem_append] at he
+        rcases he with (he | he) | he
+        · exact writeInitParams_il _ e he
+        · exact hp e he
+        · exact ih e he
+
+theorem firstPollOne_pl (c : ModCfg) (b : Bool) : ∀ e ∈ (firstPollOne c b).1, isPollLoopEv e = true := by
+  intro e he
+  unfold firstPollOne at he
+  split at he
+  · simp only [List.mem_singleton] at he; subst he; rfl
+  · split at he
+    · simp only [List.mem_cons, List.not_mem_nil, or_false] at he
+      rcases he with rfl | rfl <;> rfl
+    · simp only [List.mem_singleton] at he; subst he; rfl
+
+theorem pollLoop_pl (st : St) : ∀ (ms : List Name), ∀ e ∈ (pollLoop st ms).evs, isPollLoopEv e = true := by
+  intro ms
+  induction ms with
+  | nil => intro e he; simp [pollLoop] at he
+  | cons m ms ih =>
+    intro e he
+    unfold pollLoop at he
+    cases hr : firstPollOne (objOf st m) true with
+    | mk evs exc =>
+      have hp := firstPollOne_pl (objOf st m) true
+      rw [hr] at hp
+      simp only [hr] at he
+      cases exc with
+      | some x => exact hp e he
+      | none =>
+        simp only [List.mem_append] at he
+        rcases he with he | he
+        · exact hp e he
+        · exact ih e he
+
+theorem latePolls_pl (st : St) (ms : List Name) : ∀ e ∈ latePolls st ms, isPollLoopEv e = true := by
+  intro e he
+  obtain ⟨m, _, hm⟩ := List.mem_flatMap.mp he
+  exact firstPollOne_pl _ _ e hm
+
+/-- no communication failure among the faults of `initialReads` -/
+def readsQuiet (c : ModCfg) : Prop := c.readsFail.all (fun cls => !isComm cls) = true
+
+instance (c : ModCfg) : Decidable (readsQuiet c) := by unfold readsQuiet; infer_instance
+
+/-- no communication failure among the faults of the first poll -/
+def pollQuiet (c : ModCfg) : Prop := c.pollFail.all (fun cls => !isComm cls) = true
+
+instance (c : ModCfg) : Decidable (pollQuiet c) := by unfold pollQuiet; infer_instance
+
+theorem initialReadsOne_ok (c : ModCfg) (h : readsQuiet c) : initialReadsOne c = ([Ev.initread c.name], none) := by
+  unfold initialReadsOne
+  unfold readsQuiet at h
+  split
+  · rfl
+  · rename_i cls hc
+    rw [hc] at h
+    simp only [Option.all_some, Bool.not_eq_true'] at h
+    simp [h]
+
+theorem firstPollOne_ok (c : ModCfg) (b : Bool) (h : pollQuiet c) : firstPollOne c b = ([Ev.firstpoll c.name], none) := by
+  unfold firstPollOne
+  unfold pollQuiet at h
+  split
+  · rfl
+  · rename_i cls hc
+    rw [hc] at h
+    simp only [Option.all_some, Bool.not_eq_true'] at h
+    simp [h]
+
+theorem initLoop_ok (st : St) : ∀ (ms : List Name), (∀ m ∈ ms, readsQuiet (objOf st m)) →
+    initLoop st ms = ⟨ms.flatMap (fun m => (cfgOf st m).writes.map (Ev.write m) ++ [Ev.initread m]), none⟩ := by
+  intro ms
+  induction ms with
+  | nil => intro _; rfl
+  | cons m ms ih =>
+    intro h
+    have h1 := initialReadsOne_ok (objOf st m) (h m (by simp))
+    have h2 := ih (fun x hx => h x (List.mem_cons_of_mem _ hx))
+    unfold initLoop
+    simp only [h1, h2, writeInitParams_eq, List.flatMap_cons]
+    simp [objOf]
+
+theorem pollLoop_ok (st : St) : ∀ (ms : List Name), (∀ m ∈ ms, pollQuiet (objOf st m)) →
+    pollLoop st ms = ⟨ms.map Ev.firstpoll, none⟩ := by
+  intro ms
+  induction ms with
+  | nil => intro _; rfl
+  | cons m ms ih =>
+    intro h
+    have h1 := firstPollOne_ok (objOf st m) true (h m (by simp))
+    have h2 := ih (fun x hx => h x (List.mem_cons_of_mem _ hx))
+    unfold pollLoop
+    simp only [h1, h2]
+    simp [objOf]
+
+theorem prologue_pro (st : St) (t : Name) : ∀ e ∈ prologue st t, isProl e = true := by
+  intro e he
+  unfold prologue at he
+  simp only at he
+  split at he
+  · simp only [List.mem_append, List.mem_singleton] at he
+    rcases he with (he | rfl) | he
+    · exact initLoop_pro st _ e he
+    · rfl
+    · exact latePolls_pro st _ e he
+  · split at he
+    · simp only [List.mem_append, List.mem_singleton] at he
+      rcases he with ((he | he) | rfl) | he
+      · exact initLoop_pro st _ e he
+      · exact pollLoop_pro st _ e he
+      · rfl
+      · exact latePolls_pro st _ e he
+    · simp only [List.mem_append, List.mem_singleton] at he
+      rcases he with (he | he) | rfl
+      · exact initLoop_pro st _ e he
+      · exact pollLoop_pro st _ e he
+      · rfl
+
 /-- every started poll thread is still pending or has reported its first round; prologues contain no `thread` event -/
 structure WInv (w : Wait) : Prop where
   pend : ∀ t, Ev.thread t ∈ w.log → t ∈ w.pending ∨ Ev.rounddone t ∈ w.log
@@ -505,8 +791,8 @@ theorem winv_init (st : St) : WInv (waitInit st) := by
   intro p hp e he
   simp only [waitInit, List.mem_map] at hp
   obtain ⟨t, _, rfl⟩ := hp
-  simp only [prologue, List.mem_append, List.mem_flatMap, List.mem_map, List.mem_singleton] at he
-  rcases he with (⟨m, _, p, _, rfl⟩ | ⟨m, _, rfl⟩) | rfl <;> rfl
+  have hp := prologue_pro st t e he
+  cases e <;> simp [isProl] at hp <;> rfl
 
 end waiting
 
